@@ -235,8 +235,44 @@ class E2Shapes(ScriptEngine):
                     f"{ref_script.splitlines()[len((HEAD + MON).splitlines()) + len(t['pre'])]!r}: event {k}: "
                     f"{log[k] if k < len(log) else '<end>'!r} vs {ref_log[k] if k < len(ref_log) else '<end>'!r}",
                 )
-            return Outcome("ok", probes={"canon_compared": 1})
-        return Outcome("ok", probes={"canon_only_shape": 1})
+            return self._canon_defaults(case, t, me, passed_me, log, world) or Outcome("ok", probes={"canon_compared": 1})
+        return self._canon_defaults(case, t, me, passed_me, log, world) or Outcome("ok", probes={"canon_only_shape": 1})
+
+    def _canon_defaults(self, case, t, me, passed_me, log, world) -> Optional[Outcome]:
+        """Second reference: the same call with every omitted parameter written out with the default of the Python
+        signature (Python binds an omitted parameter to exactly that value).  Same-subset references share any defect
+        that depends on *which* parameters are passed."""
+
+        from dst.board import build
+
+        params = [p for p in inspect.signature(t["fn"]).parameters.values() if p.name != "self" and p.name not in t["skip"]]
+        values = dict(zip([p.name for p in params], me[0]))
+        values.update(dict(me[1]))
+        filled = []
+        for p in params:
+            if p.name in values:
+                filled.append((p.name, values[p.name]))
+            elif isinstance(p.default, (bool, int, float, str)):
+                filled.append((p.name, repr(p.default)))
+            elif p.default is not None and p.default is not inspect._empty:
+                return None
+        if [n for n, _v in filled] == [n for n in (p.name for p in params) if n in passed_me]:
+            return None  # nothing was omitted (or only None defaults, which cannot be written out)
+        ref_script = build_script(t, ([], filled))
+        try:
+            ref_log, _ = self._board_log(ref_script, world)
+        except (ValueError, SyntaxError, build.BuildError):
+            return None
+        if ref_log != log:
+            k = next((i for i, (a, b) in enumerate(zip(ref_log, log)) if a != b), min(len(ref_log), len(log)))
+            line = len((HEAD + MON).splitlines()) + len(t["pre"])
+            return Outcome(
+                "violation",
+                cls="binding-defaults",
+                message=f"{case['script'].splitlines()[line]!r} behaves differently from the same call with the omitted defaults written out "
+                f"{ref_script.splitlines()[line]!r}: event {k}: {log[k] if k < len(log) else '<end>'!r} vs {ref_log[k] if k < len(ref_log) else '<end>'!r}",
+            )
+        return None
 
     def shrink_candidates(self, case: dict):
         return []
